@@ -632,8 +632,9 @@ class Consumer(object):
         # outstanding request got errback'd, clear it
         self._request_d = None
 
-        if self._stopping and failure.check(CancelledError):
-            # Not really an error
+        if self._stopping:
+            # Not really an error: stop() cancelled the request. (The client
+            # reports a request cancelled in flight as FailedPayloadsError.)
             return
         # Do we need to abort?
         if self.request_retry_max_attempts != 0 and self._fetch_attempt_count >= self.request_retry_max_attempts:
@@ -740,8 +741,9 @@ class Consumer(object):
         Depending on the type of the failure, we retry the commit request
         with the latest processed offset, or callback/errback self._commit_ds
         """
-        # Check if we are stopping and the request was cancelled
-        if self._stopping and failure.check(CancelledError):
+        # Check if we are stopping: stop() cancelled the request. (The client
+        # reports a request cancelled in flight as FailedPayloadsError.)
+        if self._stopping:
             # Not really an error
             return self._deliver_commit_result(self._last_committed_offset)
 
@@ -859,8 +861,9 @@ class Consumer(object):
                 return
             self._fetch_offset = self.auto_offset_reset
 
-        if self._stopping and failure.check(CancelledError):
-            # Not really an error
+        if self._stopping:
+            # Not really an error: stop() cancelled the request. (The client
+            # reports a request cancelled in flight as FailedPayloadsError.)
             return
         # Do we need to abort?
         if self.request_retry_max_attempts != 0 and self._fetch_attempt_count >= self.request_retry_max_attempts:
